@@ -83,7 +83,29 @@ def refill(tn, rng, cplx, size_of):
         t.modify(data=a)
 
 
-def build_state(rng, kind=None, big=True):
+def weaken(tn, eps):
+    """make the state weakly entangled across every bond: on one tensor of each inner label the slices 1.. are
+    scaled by eps (a power of two: the data stay exact dyadics), slice 0 is made non-zero -> Schmidt values (1, ~eps, ..)"""
+    for ix in tn.inner_inds():
+        if tn.ind_size(ix) < 2:
+            continue
+        tids = sorted(tn.ind_map[ix])
+        for k, tid in enumerate(tids):
+            t = tn.tensor_map[tid]
+            ax = t.inds.index(ix)
+            d = np.array(t.data, dtype=complex if np.iscomplexobj(t.data) else float)
+            d = np.moveaxis(d, ax, 0)
+            if not np.any(d[0]):
+                d[0].reshape(-1)[0] = 1
+            if k == 0:
+                d[1:] *= eps
+            t.modify(data=np.ascontiguousarray(np.moveaxis(d, 0, ax)))
+
+
+WEAK_EPS = [2.0 ** -10, 2.0 ** -13, 2.0 ** -17, 2.0 ** -20, 2.0 ** -23]  # 1e-3 .. 1e-7
+
+
+def build_state(rng, kind=None, big=True, weak=None):
     """returns dict(tn, kind, sites, phys={site: dim}, is1d, cyclic)"""
     import quimb.tensor as qtn
 
@@ -125,6 +147,8 @@ def build_state(rng, kind=None, big=True):
         return bsize[ix]
 
     refill(tn, rng, cplx, size_of)
+    if weak is not None:
+        weaken(tn, weak)
     e0 = rng.choice([0, 0, 0, 1, 2])
     tn.exponent = e0
     return {"tn": tn, "kind": kind, "sites": sites, "phys": phys, "is1d": kind in ("mps", "mps_cyclic"),
@@ -314,7 +338,7 @@ class Spy:
         patch(qtn.MatrixProductState, "gate_with_auto_swap", "auto_swap")
         patch(qtn.MatrixProductState, "gate_nonlocal", "nonlocal")
         patch(qtn.Tensor, "gate_", "tgate")
-        patch(qtn.Tensor, "split", "tsplit")
+        patch(qtn.Tensor, "split", "tsplit", lambda a, k: {kk: k[kk] for kk in ("cutoff", "max_bond", "absorb") if kk in k})
         return self
 
     def __exit__(self, *exc):
@@ -818,7 +842,8 @@ def oracle_case(ctx, col, stream, n):
     import quimb.tensor as qtn
 
     rng = random.Random(f"{ctx.seed}:{stream}:{n}")
-    st = build_state(rng, big=(n % 4 == 0))
+    weak = rng.choice(WEAK_EPS) if n % 3 == 1 else None  # every third case: Schmidt values (1, ~eps): a truncation
+    st = build_state(rng, big=(n % 4 == 0), weak=weak)   # at ANY library default instead of the caller's 0 shows
     tn, sites, phys = st["tn"], st["sites"], st["phys"]
     is1d = st["is1d"]
     ng = rng.choice([1, 2, 2, 2, 2, 3])
@@ -868,9 +893,12 @@ def oracle_case(ctx, col, stream, n):
     inds = tuple(tn.site_ind(s) for s in where)
     outs = tuple(tn.site_ind(s) for s in sites)
     kw = kw_of(variant)
+    if "cutoff" in opts and rng.random() < 0.5:
+        opts["max_bond"] = None  # "no truncation" spelled out both ways
     desc = {"stream": stream, "n": n, "geometry": st["kind"], "sites": len(sites), "phys": [phys[s] for s in sites],
             "where": [str(w) for w in where], "gate": gclass, "api": api, "variant": variant, "contract": mkey(contract),
-            "opts": {k: v for k, v in opts.items()}, "propagate_tags": mkey(ptag), "exponent": st["e0"]}
+            "opts": {k: v for k, v in opts.items()}, "propagate_tags": mkey(ptag), "exponent": st["e0"],
+            "weak_entanglement_eps": weak}
     keyp = f"{api}:{st['kind']}:contract={mkey(contract)}"
     ctx.count((st["kind"], tuple(phys[s] for s in sites), gclass, tuple(map(str, where)), api, variant, mkey(contract),
                json.dumps(opts, sort_keys=True), n), not np.allclose(G, np.eye(G.shape[0])))
@@ -887,9 +915,9 @@ def oracle_case(ctx, col, stream, n):
             if api == "gate":
                 after = tn.gate(G, where if ng > 1 else where[0], contract=contract, propagate_tags=ptag, tags=["G"], **opts, **kw)
             elif api == "gate_split":
-                after = tn.gate_split(G, where, cutoff=0.0, **kw)  # forwards to gate_inds: dagger / transpose offered
+                after = tn.gate_split(G, where, **opts, **kw)  # forwards to gate_inds: dagger / transpose offered
             elif api == "gate_with_auto_swap":
-                after = tn.gate_with_auto_swap(G, where, cutoff=0.0, swap_back=opts["swap_back"])
+                after = tn.gate_with_auto_swap(G, where, **opts)
             elif api == "gate_nonlocal":
                 after = tn.gate_nonlocal(G, where, cutoff=0.0, transpose=(variant == "transpose"))
             else:
@@ -936,7 +964,11 @@ def oracle_case(ctx, col, stream, n):
         if [after.ind_size(o) for o in outs] != dperm:
             ctx.violation(f"{keyp}:swap_back=False:dims", "physical dimensions after the un-swapped gate are not the shifted ones", desc)
             return
-    if got.shape != want.shape or not np.allclose(got, want, rtol=1e-9, atol=1e-9 * max(1.0, np.abs(want).max())):
+    if api in ("gate", "gate_with_auto_swap") and (act == "AAutoSwap" or api == "gate_with_auto_swap"):
+        forwarding_case(col, desc, ev, pos, opts)
+    # no truncation was requested (cutoff=0): the result is exact up to double-precision round-off of the
+    # decompositions, so the tolerance is scaled to that (1e-11 of the largest amplitude), not to a cutoff
+    if got.shape != want.shape or not np.allclose(got, want, rtol=0.0, atol=1e-11 * max(1.0, np.abs(want).max())):
         ctx.violation(f"{keyp}:value", f"dense(after) != (operator on sites {list(map(str, where))}) @ dense(before) "
                                        f"[max err {float(np.abs(got - want).max()) if got.shape == want.shape else 'shape'}]", desc)
         return
@@ -946,6 +978,78 @@ def oracle_case(ctx, col, stream, n):
         nettags_case(ctx, col, desc, before, after, inds, act, ["G"])
     if api == "gate" and act == "ALazy":
         flag_check(ctx, desc, after, before, G, unitary, keyp)
+
+
+def forwarding_case(col, desc, ev, pos, opts):
+    """every split gate_with_auto_swap performs must work with the caller's compression options
+    (model: auto_swap_splits; 1 = the caller's cutoff / max_bond arrived, 0 = something else)"""
+    obs = []
+    for tag, k in ev:
+        if tag != "tsplit" or not isinstance(k, dict):
+            continue
+        same = k.get("cutoff", "absent") == opts.get("cutoff", "absent") and ("max_bond" in k) == ("max_bond" in opts)
+        obs.append(f"({'true' if k.get('absorb') == 'left' else 'false'}, {1 if same else 0}%nat)")
+    sb = "true" if opts.get("swap_back", True) else "false"
+    col.add({**desc, "splits_observed": obs},
+            f"bn_eqb (auto_swap_splits {pos[0]}%nat {pos[1]}%nat {sb} 1%nat) [{'; '.join(obs)}]", "option_forwarding")
+
+
+def weak_swap_stream(ctx, col):
+    """swap+split family on NON-adjacent sites of weakly entangled MPS with truncation switched off: exact"""
+    for n in range(ctx.n(40, 400)):
+        weak_swap_case(ctx, col, n)
+
+
+def weak_swap_case(ctx, col, n):
+    if True:
+        rng = random.Random(f"{ctx.seed}:weakswap:{n}")
+        eps = WEAK_EPS[n % len(WEAK_EPS)]
+        st = build_state(rng, kind=rng.choice(["mps", "mps", "mps_cyclic"]), big=True, weak=eps)
+        while len(st["sites"]) < 4:
+            st = build_state(rng, kind="mps", big=True, weak=eps)
+        tn, sites, phys = st["tn"], st["sites"], st["phys"]
+        a, b = rng.sample(sites, 2)
+        while abs(a - b) < 2:
+            a, b = rng.sample(sites, 2)
+        where = (a, b)
+        dims = [phys[s] for s in where]
+        G, gclass, _ = build_gate(rng, dims, gclass=rng.choice(["perm", "diagperm", "cnot" if dims == [2, 2] else "perm", "int", "gauss"]))
+        mode = rng.choice(["swap+split", "auto-mps", "gate_with_auto_swap", "gate_with_auto_swap:noback"])
+        opts = {"cutoff": 0.0}
+        if rng.random() < 0.5:
+            opts["max_bond"] = None
+        outs = tuple(tn.site_ind(s) for s in sites)
+        dall = [phys[s] for s in sites]
+        desc = {"stream": "weakswap", "n": n, "geometry": st["kind"], "phys": dall, "where": list(where), "gate": gclass,
+                "mode": mode, "opts": dict(opts), "weak_entanglement_eps": eps, "api": "gate"}
+        ctx.count(("weakswap", st["kind"], tuple(dall), where, gclass, mode, json.dumps(opts), n), True)
+        ctx.bump("weakswap:" + mode)
+        before = tn.copy()
+        try:
+            with Spy() as spy, warnings.catch_warnings():
+                warnings.simplefilter("ignore")
+                if mode in ("swap+split", "auto-mps"):
+                    after = tn.gate(G, where, contract=mode, **opts)
+                else:
+                    opts["swap_back"] = not mode.endswith("noback")
+                    after = tn.gate_with_auto_swap(G, where, **opts)
+                ev = spy.ev
+        except Exception as e:
+            ctx.violation(f"gate:{st['kind']}:contract=swap+split:weak:raised", f"{mode} raised {type(e).__name__}: {str(e)[:140]}", desc)
+            return
+        forwarding_case(col, desc, ev, list(where), opts)
+        want = apply_on_axes(G, dall, list(where), dense_of(before, outs))
+        if not opts.get("swap_back", True):
+            i, j = sorted(where)
+            order = list(range(len(sites)))
+            order.remove(j)
+            order.insert(i + 1, j)
+            want = np.transpose(want.reshape(dall), order).reshape(-1)
+        got = dense_of(after, outs)
+        if got.shape != want.shape or not np.allclose(got, want, rtol=0.0, atol=1e-11 * max(1.0, np.abs(want).max())):
+            err = float(np.abs(got - want).max() / max(1.0, np.abs(want).max())) if got.shape == want.shape else "shape"
+            ctx.violation(f"gate:{st['kind']}:contract=swap+split:cutoff=0:weakly_entangled:value",
+                          f"{mode} with truncation switched off is not exact on a weakly entangled state (relative error {err})", desc)
 
 
 def simple_case(ctx, stream, n):
@@ -1359,6 +1463,7 @@ def oracle_stream(ctx, col):
     nbook = ctx.n(200, 3000)  # cases whose bookkeeping (dispatch, tags) is also sent to Coq
     for n in range(ctx.n(1500, 15000)):
         oracle_case(ctx, col if n < nbook else Collector(), "oracle", n)
+    weak_swap_stream(ctx, col)
     for n in range(ctx.n(200, 2000)):
         simple_case(ctx, "simple", n)
     reject_stream(ctx, col)
@@ -1425,6 +1530,8 @@ def replay(ctx, path):
         oracle_case(ctx, col, stream, int(n))
     elif stream == "simple":
         simple_case(ctx, stream, int(n))
+    elif stream == "weakswap":
+        weak_swap_case(ctx, col, int(n))
     else:
         run(ctx)
         return
